@@ -563,6 +563,23 @@ fn c08(g: &mut Gen) {
 
 // ------------------------------------------------------------------------------------------------ C16
 fn c16(g: &mut Gen) {
+    // halves constructed on their own (no context around them) and the constructors that only wrap bytes: the rest
+    // of the public API, tied by fidelity
+    {
+        let cfg = simple_cfg(0);
+        g.case("standalone", &cfg, |s, r| {
+            for _ in 0..40 {
+                let (half, addr, eid, dest) = (r.below(2) as u32, r.cbyte() as u32, r.cbyte() as u32, r.cbyte() as u32);
+                let cap = [0usize, 5, 11, 12, 15, 16, 17, 40][r.below(8) as usize];
+                let k = r.below(3); let raw = poison(r, cap, k);
+                s.op(Op::Hdr { what: 15, fld: dest, raw, v: half | (addr << 1) | (eid << 9) });
+            }
+            for fld in 0..7u32 {
+                let len = match fld { 0 | 1 => 0, 3 | 5 => 2, _ => 4 };
+                for _ in 0..4 { let raw = r.cbytes(len); s.op(Op::Hdr { what: 16, fld, raw, v: 0 }); }
+            }
+        });
+    }
     // the three encoders that end in unimplemented!(): modelled (Encode.req_stub), tied by fidelity only (no property
     // speaks about them)
     {
